@@ -163,7 +163,8 @@ def make_run_large(fname):
     def run(case):
         global BUDGET
         old = BUDGET
-        BUDGET = 40000000
+        n = max(len(case["d1"]["Q"]), len(case["d2"]["Q"]))
+        BUDGET = 40000000 + 15 * n * n          # dfa_isomorphic needs about 5 n^2 line events on these chains (measured: 7.2e6 at 1200, 3.1e7 at 2500 states)
         try:
             r = inner(case)
         finally:
